@@ -333,7 +333,8 @@ class CSSSerializer:
         if self.prefs.defaultAtKeyword:
             return rule.atkeyword  # default
         else:
-            return rule._keyword
+            # rules built without source text have no literal keyword
+            return getattr(rule, '_keyword', None) or rule.atkeyword
 
     def _indentblock(self, text, level):
         """
@@ -715,7 +716,7 @@ class CSSSerializer:
         """
         if rule.wellformed and self.prefs.keepUnknownAtRules:
             out = Out(self)
-            out.append(rule.atkeyword)
+            out.append(self._atkeyword(rule))
 
             stacks = []
             for item in rule.seq:
